@@ -57,13 +57,13 @@ def negU (u : Units) : Units := u
 def dictEq (u v : Units) : Bool :=
   u.length == v.length && u.all fun (k, e) => hasKey v k && expOf v k == e
 
+/-- `__non_zero` and the filter of `operate_with_units`: drop zero exponents -/
+def filterZero (u : Units) : Units := u.filter fun (_, e) => e != 0
+
 /-- `__add_and_sub`: (result, mismatch warning issued) -/
 def addSub (u v : Units) : Units × Bool :=
-  if !u.isEmpty && !v.isEmpty && !dictEq u v then ([], true)
+  if !u.isEmpty && !v.isEmpty && !dictEq (filterZero u) (filterZero v) then ([], true)
   else if u.isEmpty then (v, false) else (u, false)
-
-/-- the filter of `operate_with_units`: drop zero exponents -/
-def filterZero (u : Units) : Units := u.filter fun (_, e) => e != 0
 
 /-- the constant-power path of `propagate_units` (no unpacking, no filter) -/
 def powConst (u : Units) (k : Rat) : Units := u.map fun (s, e) => (s, e * k)
